@@ -1,5 +1,6 @@
 //! Implementation-side harness for the correspondence check (Tie B): runs the real
 //! imap-proto / tokio-imap code on generated inputs and prints canonical result lines.
+mod bodystruct;
 mod mockio;
 mod tags;
 mod util;
@@ -12,6 +13,7 @@ fn main() {
     }
     match args[1].as_str() {
         "tags" => tags::main(&args[2..]),
+        "bodystruct" => bodystruct::main(&args[2..]),
         c => {
             eprintln!("unknown sub-command {c}");
             std::process::exit(2);
